@@ -7,8 +7,14 @@
 (* (outcome, cause of the ValueError, length / dtype / finiteness of the   *)
 (* result, whether the input tensor changed, whether the result equals     *)
 (* that of a fresh instance called right after the same seed - same        *)
-(* exception class, or same dtype and bits).  The inputs of an episode     *)
-(* may mix dtypes on one instance, also for kinds with a parameter vector. *)
+(* exception class, or same dtype and bits; the fresh instance ran in a    *)
+(* process of its own in which nothing else had run).  The inputs of an    *)
+(* episode may mix dtypes on one instance, also for kinds with a parameter *)
+(* vector; they are presented as new tensors, through ONE tensor object    *)
+(* rewritten in place, as short-lived temporaries or as re-wrapped         *)
+(* external memory (pres / via), and other instances (op = "other": any    *)
+(* class, default or alternate parameters) aggregate in between.  None of  *)
+(* this enters the judgement - that is the property.                       *)
 (* Every call is judged by the contract table and the memo rule of         *)
 (* AggContract, with the RNG stream tracked by the model (Draws).          *)
 (* A rejected episode prints REJECT with the failing clause; validation    *)
@@ -20,8 +26,12 @@ EXTENDS AggContract, IOUtils, TLCExt
 Episodes == JsonDeserialize(IOEnv.TRACE_FILE)
 NEp      == Len(Episodes)
 
-VARIABLES ep, pos, trng, nAcc, nRej, nDrift, nMemo, nMixed, stage
-tvars == <<kind, mode, rng, steps, ncalls, inputsIntact, ep, pos, trng, nAcc, nRej, nDrift, nMemo, nMixed, stage>>
+VARIABLES ep, pos, trng, nAcc, nRej, nDrift, nMemo, nMixed, nShape, stage
+tvars == <<kind, mode, rng, steps, ncalls, inputsIntact, ep, pos, trng, nAcc, nRej, nDrift, nMemo, nMixed, nShape, stage>>
+\* memo comparisons made (and passed) per history shape
+ShapeKeys == {"rewritten_buffer", "temporary", "temporary_same_address", "rewrapped_memory", "after_other_instance",
+              "after_other_parameters", "after_zero_row", "low_precision_before"}
+ZeroShapes == [k \in ShapeKeys |-> 0]
 
 E     == Episodes[ep]
 TKind == E.kind
@@ -29,7 +39,7 @@ TKind == E.kind
 TInit == /\ kind = (CHOOSE k \in Kinds : k.name = "Mean") /\ mode = "hist"
          /\ rng = [seed |-> "s0", stream |-> <<>>, calls |-> 0] /\ steps = <<>> /\ ncalls = 0 /\ inputsIntact = TRUE
          /\ ep = 1 /\ pos = 1 /\ trng = [seed |-> "s0", stream |-> <<>>, calls |-> 0]
-         /\ nAcc = 0 /\ nRej = 0 /\ nDrift = 0 /\ nMemo = 0 /\ nMixed = 0 /\ stage = "run"
+         /\ nAcc = 0 /\ nRej = 0 /\ nDrift = 0 /\ nMemo = 0 /\ nMixed = 0 /\ nShape = ZeroShapes /\ stage = "run"
 
 Frozen == UNCHANGED <<kind, mode, rng, steps, ncalls, inputsIntact>>
 
@@ -55,7 +65,12 @@ TStep ==
        IF st.op = "seed"
        THEN /\ trng' = [seed |-> st.s, stream |-> <<>>, calls |-> 0]
             /\ pos' = pos + 1
-            /\ UNCHANGED <<ep, nAcc, nRej, nDrift, nMemo, nMixed>>
+            /\ UNCHANGED <<ep, nAcc, nRej, nDrift, nMemo, nMixed, nShape>>
+       ELSE IF st.op = "other"
+       THEN \* another instance aggregates: the stream moves on by ITS draws (Other of AggContract)
+            /\ trng' = RngAfterCall(st.k, trng, st.c)
+            /\ pos' = pos + 1
+            /\ UNCHANGED <<ep, nAcc, nRej, nDrift, nMemo, nMixed, nShape>>
        ELSE LET f == Failing(TKind, trng, st.c, st.obs)
                 causeSeen == IF st.obs.outcome = "ValueError" THEN "VE_" \o st.obs.cause
                              ELSE st.obs.outcome
@@ -69,7 +84,7 @@ TStep ==
                                                    want |-> Contract(TKind, st.c)])>>)
                      /\ ep' = ep + 1 /\ pos' = 1 /\ nRej' = nRej + 1
                      /\ trng' = [seed |-> "s0", stream |-> <<>>, calls |-> 0]
-                     /\ UNCHANGED <<nAcc, nDrift, nMemo, nMixed>>
+                     /\ UNCHANGED <<nAcc, nDrift, nMemo, nMixed, nShape>>
                 ELSE /\ (drift => PrintT(<<"DRIFT", ToJson([ep |-> E.ep, at |-> pos, impl |-> implSays,
                                                              seen |-> causeSeen])>>))
                      /\ trng' = RngAfterCall(TKind, trng, st.c)
@@ -82,6 +97,24 @@ TStep ==
                                               /\ \E q \in 1..(pos - 1) : E.steps[q].op = "call"
                                                     /\ CrossAdmissible(TKind, E.steps[q].c)
                                             THEN 1 ELSE 0)
+                     /\ LET memoOK == MemoLevel(TKind, trng) = "property" /\ st.obs.eqfresh = "yes"
+                                        /\ Contract(TKind, st.c) = "vector"
+                            before(P(_)) == \E q \in 1..(pos - 1) : P(E.steps[q])
+                            IsOth(x)  == x.op = "other"
+                            IsOthP(x) == x.op = "other" /\ x.k.agg = TKind.agg /\ x.k # TKind
+                            IsZero(x) == x.op = "call" /\ Admissible(TKind, x.c) /\ x.obs.outcome = "vector"
+                                         /\ x.obs.zero_row
+                            IsLow(x)  == x.op = "call" /\ LowPrec(x.c) /\ Admissible(TKind, x.c)
+                            hit == {k \in ShapeKeys :
+                                      CASE k = "rewritten_buffer" -> st.pres = "buf" /\ st.via \notin {"alloc", "same"}
+                                        [] k = "temporary" -> st.pres = "tmp"
+                                        [] k = "temporary_same_address" -> st.pres = "tmp" /\ st.obs.addr = "same"
+                                        [] k = "rewrapped_memory" -> st.pres = "ext" /\ st.obs.addr = "same"
+                                        [] k = "after_other_instance" -> before(IsOth)
+                                        [] k = "after_other_parameters" -> before(IsOthP)
+                                        [] k = "after_zero_row" -> before(IsZero)
+                                        [] OTHER -> before(IsLow)}
+                        IN  nShape' = [k \in ShapeKeys |-> nShape[k] + (IF memoOK /\ k \in hit THEN 1 ELSE 0)]
                      /\ UNCHANGED <<ep, nAcc, nRej>>
     /\ UNCHANGED stage
     /\ Frozen
@@ -90,15 +123,15 @@ TEndEpisode ==
     /\ stage = "run" /\ ep <= NEp /\ pos = Len(E.steps) + 1
     /\ ep' = ep + 1 /\ pos' = 1 /\ nAcc' = nAcc + 1
     /\ trng' = [seed |-> "s0", stream |-> <<>>, calls |-> 0]
-    /\ UNCHANGED <<nRej, nDrift, nMemo, nMixed, stage>>
+    /\ UNCHANGED <<nRej, nDrift, nMemo, nMixed, nShape, stage>>
     /\ Frozen
 
 TDone == /\ stage = "run" /\ ep = NEp + 1
          /\ PrintT(<<"SUMMARY", ToJson([episodes |-> NEp, accepted |-> nAcc, rejected |-> nRej,
                                          drift |-> nDrift, memo_checked |-> nMemo,
-                                         memo_after_other_dtype |-> nMixed])>>)
+                                         memo_after_other_dtype |-> nMixed, shapes |-> nShape])>>)
          /\ stage' = "end"
-         /\ UNCHANGED <<ep, pos, trng, nAcc, nRej, nDrift, nMemo, nMixed>>
+         /\ UNCHANGED <<ep, pos, trng, nAcc, nRej, nDrift, nMemo, nMixed, nShape>>
          /\ Frozen
 
 TNext == TStep \/ TEndEpisode \/ TDone
